@@ -401,7 +401,9 @@ func (e *Engine) abort(kind, detail string) {
 }
 
 func (e *Engine) unsupported(what string) {
-	e.Unsupported[what]++
+	if !e.inInit {
+		e.Unsupported[what]++
+	}
 	e.abort("unsupported", what)
 }
 
